@@ -78,6 +78,7 @@ def run_scenario(S, scn):
             import traceback
             outcome = "exception"
             exc = "%s: %s | %s" % (type(e).__name__, str(e)[:200], traceback.format_exc().strip().split("\n")[-3].strip()[:160])
+        S.check_budget()
         after = vals()
         rsets, uncon, bounds, btors, draws = S.split_events(list(S.EV))
         recs, obs = [], []
@@ -111,6 +112,9 @@ def _worker(args):
     for scn in scns:
         try:
             calls = run_scenario(S, scn)
+        except S.SolverBudget:
+            cnt("abandoned_solver_budget")
+            continue
         except Exception as e:
             import traceback
             res["orc"].append({"signature": "free:construction-exception:" + type(e).__name__, "case": scn,
